@@ -1037,9 +1037,9 @@ M('tridiageigen-size-assigned-before-rejection', 'C12', 'rejected-call-leaves-th
 
 # ----------------------------------------------------------------------------- F32
 M('bkldlt-solution-not-scaled-back', 'C10', 'factorized-matrix-normalised',
-  [('LinAlg/BKLDLT.h', "        res *= (RealScalar(1) / m_scale);\n", "")], 'x solves (A / scale) x = b')
-M('bkldlt-data-not-normalised', 'C10', 'factorized-matrix-normalised',
-  [('LinAlg/BKLDLT.h', "            m_data *= (RealScalar(1) / m_scale);\n        else\n            m_scale = RealScalar(1);", "            m_scale = RealScalar(1);\n        else\n            m_scale = RealScalar(1);")], 'reverts the scaling of fix F32')
+  [('LinAlg/BKLDLT.h', "        res *= (RealScalar(1) / m_scale);\n", "")], 'x solves (A / scale) x = b: the right-hand side is not divided by the scale')
+N('bkldlt-data-not-normalised', 'C10',
+  [('LinAlg/BKLDLT.h', "            m_data *= (RealScalar(1) / m_scale);\n        else\n            m_scale = RealScalar(1);", "            m_scale = RealScalar(1);\n        else\n            m_scale = RealScalar(1);")], 'reverts the scaling of fix F32 (m_scale = 1 in both branches, consistently): harmless since the pivot tests were rewritten in quotient form (F48)')
 
 M('lanczos-subdiag-zero-only-on-exact-breakdown', 'C01,C07', 'subdiagonal-zero-iff-fresh-direction',
   [('LinAlg/Lanczos.h', "            bool restart = (m_beta < m_near_0);", "            const bool breakdown = (m_beta < m_near_0);\n            bool restart = breakdown;"),
@@ -1066,6 +1066,22 @@ N('davidson-extension-full-pivoting', 'C15',
    ('LinAlg/SearchSpace.h', "while (rank < qr.nonzeroPivots() && std::abs(qr.matrixR()(rank, rank)) > new_dir_thresh)", "while (rank < qr.nonzeroPivots() && std::abs(qr.matrixQR()(rank, rank)) > new_dir_thresh)")], 'another rank-revealing factorization')
 N('davidson-correction-count-from-ritz-values', 'C15',
   [('DavidsonSymEigsSolver.h', "Index(residues.cols()));", "Index(eigvals.size()));")], 'same count from the other array')
+
+# ----------------------------------------------------------------------------- F48
+M('bkldlt-solve-scales-the-solution-instead-of-the-right-hand-side', 'C10', 'factorized-matrix-normalised',
+  [('LinAlg/BKLDLT.h', "        res *= (RealScalar(1) / m_scale);\n        Index npermc = m_permc.size();", "        res *= m_scale;\n        Index npermc = m_permc.size();")], 'multiplies instead of divides: wrong by scale^2')
+
+M('bkldlt-solution-scaled-after-the-substitutions', 'C10', 'factorized-matrix-normalised',
+  [('LinAlg/BKLDLT.h', "        res *= (RealScalar(1) / m_scale);\n        Index npermc = m_permc.size();", "        Index npermc = m_permc.size();"),
+   ('LinAlg/BKLDLT.h', "            std::swap(x[m_permc[i].first], x[m_permc[i].second]);\n        }\n    }\n\n    Vector solve(", "            std::swap(x[m_permc[i].first], x[m_permc[i].second]);\n        }\n        res *= (RealScalar(1) / m_scale);\n    }\n\n    Vector solve(")],
+  'reverts the order of fix F48: the intermediate vector is scale * x')
+
+M('bkldlt-pivot-test-multiplies-two-magnitudes-again', 'C10', 'factorized-matrix-normalised',
+  [('LinAlg/BKLDLT.h', "if (abs_akk < alpha * lambda * (lambda / sigma))", "if (sigma * abs_akk < alpha * lambda * lambda)"),
+   ('LinAlg/BKLDLT.h', "            m_data *= (RealScalar(1) / m_scale);\n        else\n            m_scale = RealScalar(1);", "            m_scale = RealScalar(1);\n        else\n            m_scale = RealScalar(1);")],
+  'product form of the pivot test without the normalisation: the demand of F32 is back')
+M('bkldlt-vector-divided-by-complex-pivot', 'C10', 'no-element-wise-division-by-a-complex-scalar',
+  [('LinAlg/BKLDLT.h', "        l *= (Scalar(1) / akk);\n", "        l /= akk;\n")], 'reverts fix F48 (c) for the 1x1 pivot')
 
 # ----------------------------------------------------------------------------- K6
 N('buckling-pole-guarded', 'C13',
